@@ -9,6 +9,7 @@ import (
 	"fmt"
 	"go/ast"
 	"go/token"
+	"go/types"
 	"sort"
 	"strings"
 )
@@ -149,6 +150,9 @@ func checkC15(c *Ctx, r *Report) {
 		r.Check(ptrOK && slotOK, "C15.c", "R12 STATE-INVENTORY", name+"/ParserInit", sk.pos(init.Pos()),
 			"ParserInit sets the pointer to 1 and provides the entry {state 0, symbol 1 = end marker}: "+slotHow,
 			fmt.Sprintf("ParserInit does not re-establish the initial configuration (pointer = 1: %v, entry {Yystate: 0, YySymIndex: 1}: %v)", ptrOK, slotOK))
+		if !sk.V.Object {
+			c15FreshStack(r, "C15.c", sk)
+		}
 		// slots are written only at the pointer or above-by-append: PushStateSym stores at [pointer]
 		push := sk.FuncDecl(recv, "PushStateSym")
 		if push != nil {
@@ -243,6 +247,125 @@ func checkC15(c *Ctx, r *Report) {
 	} else {
 		r.Undecided("C15.d", "TS STATE", "typescript/initialize", "Builder/TsGenCode.go", "no initialize() function in the TypeScript output")
 	}
+}
+
+// c15FreshStack — global skeletons. The template offers nested parses: PushContex saves the live stack BY SLICE
+// HEADER, the action then calls ParserInit + Parser, PopContex restores the header; and Parser returns a pointer
+// into the stack array. Both alias the backing array of the stack in use. Hence ParserInit must install storage
+// that is disjoint from every earlier stack: an allocation expression that does not mention the old stack.
+// (If PushContex copied the elements and Parser returned a copy, re-using the array would be harmless; the rule
+// first establishes that the aliases exist.)
+func c15FreshStack(r *Report, clause string, sk *Skeleton) {
+	name := "skeleton " + sk.V.Name
+	init := sk.FuncDecl("", "ParserInit")
+	if init == nil {
+		return // reported by the ParserInit obligation
+	}
+	var stackObj types.Object
+	if sk.Pkg != nil {
+		stackObj = sk.Pkg.Scope().Lookup("StateSymStack")
+	}
+	if stackObj == nil {
+		r.Undecided(clause, "R12 STATE-INVENTORY", name+"/ParserInit/fresh-storage", sk.pos(init.Pos()), "no package-level StateSymStack in the global skeleton")
+		return
+	}
+	mentions := func(n ast.Node) bool {
+		found := false
+		ast.Inspect(n, func(m ast.Node) bool {
+			if id, ok := m.(*ast.Ident); ok && sk.Info.Uses[id] == stackObj {
+				found = true
+			}
+			return !found
+		})
+		return found
+	}
+	// aliases of the live stack's backing array
+	var aliases []string
+	if pc := sk.FuncDecl("", "PushContex"); pc != nil {
+		ast.Inspect(pc.Body, func(n ast.Node) bool {
+			if kv, ok := n.(*ast.KeyValueExpr); ok {
+				if id, ok := unparen(kv.Value).(*ast.Ident); ok && sk.Info.Uses[id] == stackObj {
+					aliases = append(aliases, "PushContex saves the stack by slice header")
+				}
+			}
+			return true
+		})
+	}
+	if ps := sk.FuncDecl("", "Parser"); ps != nil {
+		ast.Inspect(ps.Body, func(n ast.Node) bool {
+			if ret, ok := n.(*ast.ReturnStmt); ok {
+				for _, e := range ret.Results {
+					if u, ok := unparen(e).(*ast.UnaryExpr); ok && u.Op == token.AND {
+						aliases = append(aliases, "Parser returns a pointer into the stack ("+printNode(sk.Fset, e)+")")
+						return false
+					}
+				}
+			}
+			return true
+		})
+	}
+	if len(aliases) == 0 {
+		r.OK(clause, "R12 STATE-INVENTORY", name+"/ParserInit/fresh-storage", sk.pos(init.Pos()), "nothing aliases the stack's backing array across ParserInit (no header-saving PushContex, Parser returns no pointer): re-use would be harmless")
+		return
+	}
+	var rhs ast.Expr
+	ast.Inspect(init.Body, func(n ast.Node) bool {
+		if as, ok := n.(*ast.AssignStmt); ok && len(as.Lhs) == len(as.Rhs) {
+			for i, l := range as.Lhs {
+				if id, ok := unparen(l).(*ast.Ident); ok && sk.Info.Uses[id] == stackObj {
+					rhs = as.Rhs[i]
+				}
+			}
+		}
+		return true
+	})
+	if rhs == nil {
+		r.Fail(clause, "R12 STATE-INVENTORY", name+"/ParserInit/fresh-storage", sk.pos(init.Pos()), "ParserInit does not assign the stack variable as a whole: the previous parse's array stays in use although "+strings.Join(dedupStrings(aliases), " and "))
+		return
+	}
+	alloc := false
+	switch x := unparen(rhs).(type) {
+	case *ast.CompositeLit:
+		alloc = true
+	case *ast.CallExpr:
+		switch builtinName(sk.Info, x) {
+		case "make":
+			alloc = true
+		case "append":
+			alloc = true // judged by the mention test below: append(nil / literal, …) allocates
+		}
+	}
+	ok := alloc && !mentions(rhs)
+	r.Check(ok, clause, "R12 STATE-INVENTORY", name+"/ParserInit/fresh-storage", sk.pos(init.Pos()),
+		"ParserInit installs a newly allocated stack (`"+oneLine(printNode(sk.Fset, rhs))+"`) that does not derive from the old one; needed because "+strings.Join(dedupStrings(aliases), " and "),
+		"ParserInit builds the new stack from the old one (`"+oneLine(printNode(sk.Fset, rhs))+"`), re-using its backing array, but "+strings.Join(dedupStrings(aliases), " and ")+": a nested parse (PushContex; ParserInit; Parser; PopContex) overwrites the outer parse's entries and a kept result is overwritten by the next parse")
+}
+
+// c15FreshStackAll evaluates the fresh-storage rule on every global skeleton (used as a prerequisite clause by the
+// properties that assume the parse stack belongs to one parse: C01, C07, C08).
+func c15FreshStackAll(r *Report, clause string, st *Staged) {
+	for _, sk := range quickSkeletons(st) {
+		if sk.V.Object || sk.File == nil || sk.Pkg == nil || len(sk.TypeErs) > 0 {
+			continue
+		}
+		c15FreshStack(r, clause, sk)
+	}
+}
+
+func dedupStrings(in []string) []string {
+	seen := map[string]bool{}
+	var out []string
+	for _, s := range in {
+		if !seen[s] {
+			seen[s] = true
+			out = append(out, s)
+		}
+	}
+	return out
+}
+
+func oneLine(s string) string {
+	return strings.Join(strings.Fields(s), " ")
 }
 
 func firstVal(m map[string]string) string {
